@@ -13,6 +13,8 @@ type RecOS struct {
 	Before func(call OSCall) // invoked before the call is issued
 	// Fail, if set, is asked before a rename: a non-nil error is returned to litefs instead of renaming
 	Fail func(call OSCall) error
+	// After, if set, runs right after a rename was carried out
+	After func(call OSCall)
 }
 
 type OSCall struct {
@@ -79,7 +81,14 @@ func (o *RecOS) Rename(op, oldpath, newpath string) error {
 			return err
 		}
 	}
-	return os.Rename(oldpath, newpath)
+	err := os.Rename(oldpath, newpath)
+	o.mu.Lock()
+	af := o.After
+	o.mu.Unlock()
+	if af != nil && err == nil {
+		af(OSCall{op, "rename", oldpath, newpath})
+	}
+	return err
 }
 func (o *RecOS) Stat(op, name string) (os.FileInfo, error) {
 	o.rec(op, "stat", name, "")
